@@ -226,8 +226,22 @@ def reset_atoms():
 
 
 def atom_constraints():
-    """Side conditions of all power atoms created so far (positivity; pw(b,e) relates monotonically to nothing else)."""
-    return [z3.Real(n) > 0 for n in _ATOM_INFO]
+    """Side conditions of all power atoms created so far: positivity, and what the sign of the exponent and the position of the base
+    relative to 1 imply (b = 1 -> 1;  b > 1: power > 1 for positive, < 1 for negative exponents;  b < 1 the other way round).
+    Distinct atoms stay otherwise unrelated (an over-approximation, sound for unsat)."""
+    out = []
+    one = z3.RealVal(1)
+    for n, (b, q) in _ATOM_INFO.items():
+        a = z3.Real(n)
+        out.append(a > 0)
+        try:
+            pos = Fraction(q) > 0
+        except (TypeError, ValueError):
+            continue
+        out.append(z3.Implies(b == one, a == one))
+        out.append(z3.Implies(b > one, (a > one) if pos else (a < one)))
+        out.append(z3.Implies(b < one, (a < one) if pos else (a > one)))
+    return out
 
 
 def atom_info():
